@@ -209,6 +209,18 @@ static void crash_handler(int sig) {
   if (g_shm) g_shm->crash_sig = sig;
   _exit(70 + (sig & 31));
 }
+// bin/coverage builds the operation TUs with gcov counters; a child must write them out itself
+// because it leaves through _exit()
+#ifdef C18SIM_COVERAGE
+extern "C" void __gcov_dump(void);
+static inline void child_exit0() {
+  __gcov_dump();
+  _exit(0);
+}
+#else
+static inline void child_exit0() { _exit(0); }
+#endif
+
 static void terminate_handler() {
   if (g_shm) g_shm->terminated = 1;
   if (std::exception_ptr ep = std::current_exception()) {
@@ -370,7 +382,8 @@ static void child_prepare(const Plan& pl, RunCtx& rc, int only_task) {
   sim::run(cfg, task_body, &rc, g_shm->res);
   g_shm->res.switch_log = nullptr;
   g_shm->stage = 5;
-  _exit(0);
+  child_exit0();
+  __builtin_unreachable();
 }
 
 [[noreturn]] static void child_run(const Plan& pl, uint64_t serial_events) {
@@ -424,7 +437,8 @@ static void child_prepare(const Plan& pl, RunCtx& rc, int only_task) {
     g_shm->pool_digest_after = d1.hash;
   }
   g_shm->stage = 5;
-  _exit(0);
+  child_exit0();
+  __builtin_unreachable();
 }
 
 // ------------------------------------------------------------------------------------------------
@@ -722,7 +736,7 @@ static PlanOp random_op(Rng& r, const OpDef* d) {
   op.p[0] = r.below(d->nfn);
   op.p[1] = r.below(d->nobj);
   op.p[2] = r.below(d->nobj);
-  op.p[3] = r.below(4);
+  op.p[3] = r.below(16);  // four free bits of per-operation variation (bits 2,3: rarely used alternatives)
   op.salt = r.u64();
   op.throw_at = (d->has_callback && r.coin(0.15)) ? (int)r.below(6) : -1;
   // call volume: a few operations repeat their call 16..256 times (counters that wrap, tables that
